@@ -113,7 +113,7 @@ impl Serialize for String {
     fn deserialize(bytes: &[u8]) -> Result<Self, DbError> {
         let len = usize::deserialize(bytes)?;
         let begin = len.serialized_size() as usize;
-        let end = begin + len;
+        let end = begin.saturating_add(len);
 
         Ok(String::from_utf8(
             bytes
@@ -165,15 +165,19 @@ impl<T: Serialize> Serialize for Vec<T> {
     fn deserialize(bytes: &[u8]) -> Result<Self, DbError> {
         let len = usize::deserialize(bytes)?;
         let mut begin = len.serialized_size() as usize;
-        let mut vec = Self::with_capacity(len);
+        let mut vec = Self::with_capacity(std::cmp::min(len, bytes.len()));
 
         for _ in 0..len {
-            let value = T::deserialize(&bytes[begin..]).map_err(|_| {
-                DbError::serialization(
-                    DbErrorType::OutOfBounds,
-                    format!("Vec<{}> deserialization error", std::any::type_name::<T>()),
-                )
-            })?;
+            let value = bytes
+                .get(begin..)
+                .ok_or(())
+                .and_then(|bytes| T::deserialize(bytes).map_err(|_| ()))
+                .map_err(|_| {
+                    DbError::serialization(
+                        DbErrorType::OutOfBounds,
+                        format!("Vec<{}> deserialization error", std::any::type_name::<T>()),
+                    )
+                })?;
             begin += value.serialized_size() as usize;
             vec.push(value);
         }
@@ -204,7 +208,7 @@ impl Serialize for Vec<u8> {
     fn deserialize(bytes: &[u8]) -> Result<Self, DbError> {
         let len = usize::deserialize(bytes)?;
         let begin = len.serialized_size() as usize;
-        let end = begin + len;
+        let end = begin.saturating_add(len);
 
         Ok(bytes
             .get(begin..end)
@@ -266,7 +270,14 @@ impl Serialize for SystemTime {
         let before_epoch = bytes[12] == 0_u8;
         let secs = u64::from_le_bytes(secs_bytes);
         let nanos = u32::from_le_bytes(nanos_bytes);
-        let duration = Duration::new(secs, nanos);
+        let duration = Duration::from_secs(secs)
+            .checked_add(Duration::from_nanos(nanos as u64))
+            .ok_or_else(|| {
+                DbError::serialization(
+                    DbErrorType::OutOfBounds,
+                    "SystemTime deserialization error: duration out of range",
+                )
+            })?;
 
         if before_epoch {
             Ok(UNIX_EPOCH.checked_sub(duration).ok_or_else(|| {
